@@ -63,13 +63,16 @@ def shard_cost(spec):
     return SP.BY_NAME[spec["inner"]].cost
 
 
-def _run(qs, X, y, cand, bs, tape, kw):
+def _run(qs, X, y, cand, bs, tape, kw, return_utilities=True):
     np.random.seed(PR.GLOBAL_SEED)
     with warnings.catch_warnings():
         warnings.simplefilter("ignore")
         try:
             with T.ties(tape), T.rng_override(PR.rng_factory):
-                r = qs.query(X.copy(), y.copy(), candidates=None if cand is None else np.array(cand), batch_size=bs, return_utilities=True, **kw)
+                r = qs.query(X.copy(), y.copy(), candidates=None if cand is None else np.array(cand), batch_size=bs, return_utilities=return_utilities,
+                             **kw)
+            if not return_utilities:
+                return ("ok", [int(i) for i in np.asarray(r).ravel()], None)
             return ("ok", [int(i) for i in np.asarray(r[0]).ravel()], np.asarray(r[1], dtype=float))
         except Exception as e:
             return ("exc", type(e).__name__, str(e)[:150])
@@ -179,6 +182,15 @@ def check_subsample(acc, inner, pname, mc, tier):
                             acc.violation("SubSamplingWrapper", bad[0], bad[1] + " [tape %s]" % tp.choices, wit, preds, rep, size)
                             break
                         seen_subsets.add(tuple(S))
+                        # the selection is reported in the caller's index space whether or not the utilities are requested
+                        w2 = P.SubSamplingWrapper(query_strategy=inner.make(0, ml), max_candidates=mc, exclude_non_subsample=excl, random_state=0,
+                                                  missing_label=ml)
+                        o2 = _run(w2, X, y, cand, bs, T.Tape(tp.choices), inner.query_kwargs(X, ml), return_utilities=False)
+                        acc.transitions += 1
+                        if o2[0] != "ok" or o2[1] != sel:
+                            acc.violation("SubSamplingWrapper", "selection_depends_on_return_utilities", "with utilities %s, without %s [tape %s]" % (
+                                sel, o2[1] if o2[0] == "ok" else o2[1:], tp.choices), wit, preds, rep, size)
+                            break
                         # reference: the wrapped strategy called independently on the same sub-sample
                         if mode == "rows":
                             refc, back = X[PR.unlabeled(lab)][S] if False else np.asarray(cand)[S], None
